@@ -56,6 +56,21 @@ pub enum ReadOp {
 pub enum WriteOp {
     Set { k: KeySpec, v: Bytes },
     Remove { k: KeySpec },
+    /// read the value, remove the key and write the very same value back (a net no-op made of
+    /// three operations); `rewrite_only`: just write the current value again
+    Restore { k: KeySpec, rewrite_only: bool },
+    /// `n` keys "bulk/<tag>/<i>" (big-endian i) set in one go: contracts with many entries
+    Bulk { tag: u8, n: u16 },
+    /// the same keys removed again
+    BulkRemove { tag: u8, n: u16 },
+}
+
+pub fn bulk_key(tag: u8, i: u16) -> Vec<u8> {
+    let mut k = b"bulk/".to_vec();
+    k.push(tag);
+    k.push(b'/');
+    k.extend_from_slice(&i.to_be_bytes());
+    k
 }
 
 #[derive(Clone, Debug, Serialize, Deserialize, PartialEq, Eq)]
@@ -154,6 +169,8 @@ pub enum CodeKind {
     Wrapped,
     /// repo's ContractWrapper::new_with_empty + with_*_empty (Empty-typed, lifted by the wrapper)
     WrappedEmpty,
+    /// repo's ContractWrapper::new and nothing else: no sudo, reply or migrate entry point
+    WrappedBare,
 }
 
 #[derive(Clone, Debug, Serialize, Deserialize, PartialEq, Eq)]
